@@ -1,8 +1,8 @@
 import sys
 sys.path.insert(0,"/verif")
 from get import *
-obls, eng = obls_of("Perm.occurrences_in")
-for name in sys.argv[1:]:
+obls, eng = obls_of(sys.argv[1])
+for name in sys.argv[2:]:
     ob = find(obls, name)
     for seed in range(6):
         s = z3.Solver(); s.set("timeout", 4000); s.set("auto_config", False); s.set("mbqi", False); s.set("random_seed", seed); s.set("smt.random_seed", seed)
